@@ -70,6 +70,7 @@ def merge(summaries):
            "cuts": 0, "mismatch_by_prop": {}, "mismatch_by_tag": {}, "distinct_last_steps": {}, "mismatches": [],
            "samples": [], "replays": {}}
     for s in summaries:
+        tot["tree_hook"] = tot.get("tree_hook", True) and bool(s.get("tree_hook", False))
         for k in ["histories", "steps", "backend_calls", "closes", "agreed", "parse_errors", "cuts"]:
             tot[k] += s.get(k, 0)
         for k in ["mismatch_by_prop", "mismatch_by_tag", "distinct_last_steps"]:
@@ -170,6 +171,7 @@ def run(prop, tier, seed, mc, gen, level_rule, nontrivial=None, extra=None, cuts
         "histories_replayed": total["histories"], "steps_replayed": total["steps"],
         "backend_calls_checked": total["backend_calls"], "close_events_checked": total["closes"],
         "stream_cuts_replayed": total["cuts"],
+        "pathtree_snapshot_compared": bool(total.get("tree_hook")),
         "distinct_final_steps": len(keys),
         "mismatches_owned_by_other_properties": others,
         "tlc_runs": tlc_runs,
